@@ -140,7 +140,7 @@ def outcome_of_result(call: dict, r) -> dict:
 BH_KINDS = ["none", "empty", "current", "stale", "future", "flip", "trunc8", "trunc32", "extend", "upper", "newline"]
 BH_WEIGHTS = [("none", 5), ("current", 8), ("stale", 4), ("future", 3), ("flip", 2), ("trunc8", 2), ("trunc32", 1),
               ("extend", 1), ("upper", 1), ("newline", 1), ("empty", 1), ("spaces", 1), ("padded", 1), ("prefixed", 1)]
-STEP_KINDS = [("ext_stealth", 3), ("ext_empty", 2), ("ext_crlf", 2), ("ext_binary", 1), ("content", 8), ("changes", 5), ("normalize", 3), ("content_dry", 2), ("changes_dry", 1), ("normalize_dry", 1),
+STEP_KINDS = [("ext_bom", 1), ("ext_fm_only", 1), ("ext_trailing_ws", 1), ("ext_nonl", 1), ("ext_stealth", 3), ("ext_empty", 2), ("ext_crlf", 2), ("ext_binary", 1), ("content", 8), ("changes", 5), ("normalize", 3), ("content_dry", 2), ("changes_dry", 1), ("normalize_dry", 1),
               ("cli_content", 2), ("cli_changes", 2), ("atomic", 2), ("ext_valid", 3), ("ext_invalid", 1), ("ext_delete", 1),
               ("bad_both", 1), ("bad_path", 1), ("bad_content", 2), ("ext_lenient", 2)]
 
@@ -174,6 +174,14 @@ def gen_history(t: Tape, idx: int, maxlen: int) -> dict:
             st["text"] = docs.gen_doc(t, mk + "x", t.pick(["canonical", "frontmatter"], "h.crlf")).replace("\n", "\r\n")
         if kind == "ext_binary":
             st["text"] = None
+        if kind == "ext_bom":
+            st["text"] = "\ufeff" + docs.canonical(docs.gen_doc(t, mk + "x"))
+        if kind == "ext_fm_only":
+            st["text"] = "---\nname: only-" + mk + "\ndescription: no body\n---\n"
+        if kind == "ext_trailing_ws":
+            st["text"] = docs.gen_doc(t, mk + "x", "trail")
+        if kind == "ext_nonl":
+            st["text"] = docs.gen_doc(t, mk + "x", "nonl")
         if kind == "ext_empty":
             st["text"] = ""  # truncated in place to zero bytes: an existing file whose text is the empty string
         if kind == "ext_invalid":
